@@ -79,6 +79,21 @@ func applyMut(doc map[string]any, m jmut) bool {
 		obj[m.F] = "abc"
 	case "idFloat":
 		obj[m.F] = "1.5"
+	case "crsUriObject", "crsWkt", "crsRefSys":
+		// the other forms the "crs" value may take (tms20.go unmarshalCRS: oneOf uri string / {uri} / {wkt} / {referenceSystem})
+		uri, _ := cur.(string)
+		if uri == "" {
+			uri = "http://www.opengis.net/def/crs/EPSG/0/28992"
+		}
+		switch m.Op {
+		case "crsUriObject":
+			obj[m.F] = map[string]any{"description": "as an object", "uri": uri}
+		case "crsWkt":
+			code := uri[strings.LastIndex(uri, "/")+1:]
+			obj[m.F] = map[string]any{"description": "as projjson", "wkt": map[string]any{"type": "ProjectedCRS", "name": "n", "id": map[string]any{"authority": "EPSG", "code": code}}}
+		default:
+			obj[m.F] = map[string]any{"referenceSystem": map[string]any{"code": uri, "codeSpace": "x"}}
+		}
 	case "dropElement", "elemNumber":
 		arr, ok := cur.([]any)
 		if !ok || len(arr) < 4 {
